@@ -83,6 +83,7 @@ func TestVerifBounded_IncludePathForms(t *testing.T) {
 		{"[ab].journal", "a.journal,b.journal"},
 		{"<->/d.journal", "sub/d.journal"},
 		{"<->/*.journal", "a.journal,b.journal,sub/d.journal,~c.journal"},
+		{"<->/sub/<->/d.journal", "sub/d.journal"},
 		{"a.journal", "a.journal"},
 	} {
 		cases++
